@@ -161,19 +161,22 @@ def storeAll (addr : Addr) : Nat → List Nat → Addr
   | _, [] => addr
   | k, g :: gs => storeAll (if h : k < 8 then addr.set k (BitVec.ofNat 16 g) h else addr) (k + 1) gs
 
-/-- a text that starts with a hex digit or is empty (what may follow a single ':') -/
-def Benign (t : Bytes) : Prop := t = [] ∨ ∃ n rest, n < 16 ∧ t = hexChar n :: rest
+/-- a text that is empty or starts with neither '.' nor ':' (what may follow a single ':') -/
+def Benign (t : Bytes) : Prop := t = [] ∨ ∃ c rest, t = c :: rest ∧ c ≠ 46 ∧ c ≠ 58
+
+theorem Benign.hex {n : Nat} (hn : n < 16) (rest : Bytes) : Benign (hexChar n :: rest) :=
+  Or.inr ⟨_, rest, rfl, hexChar_ne_dot hn, hexChar_ne_colon hn⟩
 
 theorem benign_char {s : Bytes} {p : Nat} {t : Bytes} (hb : Benign t) (hd : s.drop p = t) (hp : p ≤ s.length) :
     charAt s p ≠ 46 ∧ charAt s p ≠ 58 := by
-  rcases hb with rfl | ⟨n, rest, hn, rfl⟩
+  rcases hb with rfl | ⟨c, rest, rfl, h1, h2⟩
   · rw [(drop_nil_props hd hp).2]; decide
   · rw [(drop_cons_props hd).2.1]
-    exact ⟨hexChar_ne_dot hn, hexChar_ne_colon hn⟩
+    exact ⟨h1, h2⟩
 
 theorem benign_group (g : Nat) (hg : g < 65536) (tail : Bytes) : Benign (printGroup g ++ tail) := by
   obtain ⟨n, rest, hn, e⟩ := printGroup_head g hg
-  exact Or.inr ⟨n, rest ++ tail, hn, by rw [e]; rfl⟩
+  rw [e]; exact Benign.hex hn _
 
 theorem benign_units (gs : List Nat) (h : ∀ g ∈ gs, g < 65536) (tail : Bytes) (ht : Benign tail) :
     Benign (units gs ++ tail) := by
@@ -508,8 +511,8 @@ theorem benign_joinC (gs : List Nat) (h : ∀ g ∈ gs, g < 65536) : Benign (joi
   | cons g rest =>
     obtain ⟨n, tl, hn, hp⟩ := printGroup_head g (h g (by simp))
     cases rest with
-    | nil => exact Or.inr ⟨n, tl, hn, by simp [joinC, hp]⟩
-    | cons g' rest' => exact Or.inr ⟨n, _, hn, by simp [joinC, hp]; rfl⟩
+    | nil => simp only [List.map, joinC, hp]; exact Benign.hex hn _
+    | cons g' rest' => simp only [List.map, joinC, hp, List.cons_append]; exact Benign.hex hn _
 
 theorem storeAll_single (addr : Addr) (k v : Nat) (h : k < 8) :
     addr.set k (BitVec.ofNat 16 v) h = storeAll addr k [v] := by
